@@ -4,6 +4,9 @@ of its own property (and any extra checks given), revert, and write
 seeded/<id>/meta.json plus seeded/MATRIX.md.
 
 usage: tools/matrix.py [SEED_ID ...]   (default: all)
+
+MATRIX_REPO=<dir> runs against another checkout than /repo (a `vp run
+--with-repo` snapshot of the same commit, so that /repo stays free).
 """
 import json
 import os
@@ -11,6 +14,7 @@ import subprocess
 import sys
 
 VERIF = os.path.dirname(os.path.dirname(os.path.abspath(__file__)))
+REPO = os.environ.get('MATRIX_REPO', '/repo')
 SEEDED = os.path.join(VERIF, 'seeded')
 # checks (beyond the seed's own property) that also look at the same code
 EXTRA = {
@@ -43,6 +47,8 @@ def sh(cmd, **kw):
 
 def run_check(cid):
     env = dict(os.environ, VERIF_NO_EVIDENCE='1')
+    if REPO != '/repo':
+        env['VP_RUN_REPO'] = REPO
     r = sh('./check %s --tier quick' % cid, cwd=VERIF, env=env)
     sigs = [l.split('sig=')[1].split(' ')[0] for l in r.stdout.splitlines()
             if 'sig=' in l]
@@ -53,14 +59,14 @@ def main():
     ids = sys.argv[1:] or sorted(
         d for d in os.listdir(SEEDED)
         if os.path.isdir(os.path.join(SEEDED, d)))
-    if sh('git -C /repo status --porcelain').stdout.strip():
-        sys.exit('/repo is dirty')
+    if sh('git -C %s status --porcelain' % REPO).stdout.strip():
+        sys.exit('%s is dirty' % REPO)
     rows = []
     for sid in ids:
         d = os.path.join(SEEDED, sid)
         prop = sid.split('_')[0]
         patch = os.path.join(d, 'patch.diff')
-        a = sh('git -C /repo apply %s' % patch)
+        a = sh('git -C %s apply %s' % (REPO, patch))
         if a.returncode:
             print(sid, 'PATCH DOES NOT APPLY', a.stderr[:200])
             continue
@@ -72,7 +78,7 @@ def main():
                                     signatures=sigs[:6])
                 print(sid, cid, 'rc=%d' % rc, sigs[:2], flush=True)
         finally:
-            sh('git -C /repo checkout -- . && git -C /repo clean -fdq')
+            sh('git -C %s checkout -- . && git -C %s clean -fdq' % (REPO, REPO))
         meta_txt = open(os.path.join(d, 'meta.txt')).read() \
             if os.path.exists(os.path.join(d, 'meta.txt')) else ''
         meta = dict(
@@ -86,7 +92,7 @@ def main():
                     'HEAD: patch applies; demo.py exits 0 without and '
                     'non-zero with the change; pinned suite 137 passed with '
                     'the change',
-                repo_head=sh('git -C /repo rev-parse --short HEAD'
+                repo_head=sh('git -C %s rev-parse --short HEAD' % REPO
                              ).stdout.strip()),
             detection=results,
             detected_by=[c for c, r in results.items() if r['exit'] == 1],
